@@ -1,10 +1,12 @@
 #!/bin/sh
 # runs every registered check once (quick tier) and prints one line per property
 cd "$(dirname "$0")/.."
+worst=0
 for p in C01 C02 C03 C04 C05 C06 C07 C08 C09 C10 C11 C12 C13 C14 C15 C16 C17 C18 C19 C20; do
   s=$(date +%s)
   out=$(./check $p --tier ${1:-quick} 2>&1); rc=$?
   e=$(date +%s)
   echo "$p rc=$rc $((e-s))s $(echo "$out" | grep -E '^\[C' | head -1 | cut -c1-110)"
-  [ $rc -ne 0 ] && echo "$out" | grep -E "VIOLATION|UNDECIDED|CHECKER-ERROR|failed:" | head -5 | cut -c1-300
+  if [ $rc -ne 0 ]; then worst=$rc; echo "$out" | grep -E "VIOLATION|UNDECIDED|CHECKER-ERROR|failed:" | head -5 | cut -c1-300; fi
 done
+exit $worst
